@@ -122,7 +122,9 @@ def gen_free(rng):
             outs.append((name, rng.choice(PATHS)))
         elif kind == "p":
             if not missing:
-                pars.append((name, "" if rng.random() < 0.04 else rng.choice(VALS + ["%", "s/a/b/"])))
+                # also values that look like placeholders of the same command (legal; what they expand to is decided by the
+                # left-to-right order of the pattern, the same for every task)
+                pars.append((name, "" if rng.random() < 0.04 else rng.choice(VALS + ["%", "s/a/b/", "from {i:a}", "{p:q}", "see {o:o1}", "{t:t1}|x"])))
         else:
             if not missing:
                 tags.append((name, "" if rng.random() < 0.04 else rng.choice(VALS)))
